@@ -64,8 +64,10 @@ Hypothesis HA : A < 2 ^ 32.
 Variable B : list blk.
 Hypothesis HB : shapeB B.
 Variable extra : list N.
-(* the trailer is right, or not looked at *)
-Hypothesis Hfin : final_status fl zl A B = Done.
+Notation fin := (final_status fl zl A B).
+
+Lemma fin_cases : fin = Done \/ fin = Adler32Mismatch.
+Proof. unfold final_status. destruct (has fl F_IGNORE || negb zl || (adler32 1 (InflateStoredChunks.P B) =? A)); auto. Qed.
 
 Notation PB := (InflateStoredChunks.P B).
 Notation DI' := (InflateStoredGen.DI fl zl cmf flg A B extra).
@@ -78,7 +80,7 @@ Definition WI (s : istream) (rem Dd : list N) : Prop :=
   DI' (is_dec s) rem (Dd ++ pend s) /\
   alen (is_dict s) = DICT /\ is_ofs s + is_avail s <= DICT /\ is_ofs s < DICT /\
   is_flushed s = false /\ is_fmt s = fmt /\
-  (is_last s = NeedsMoreInput \/ is_last s = HasMoreOutput \/ (is_last s = Done /\ d_state (is_dec s) = DoneForever)).
+  (is_last s = NeedsMoreInput \/ is_last s = HasMoreOutput \/ (is_last s = fin /\ d_state (is_dec s) = DoneForever)).
 
 Lemma WI_prefix s rem Dd : WI s rem Dd -> exists X, Dd ++ X = PB.
 Proof.
@@ -126,7 +128,7 @@ Definition TurnPost (fut Dd : list N) (l l' : lstate) (bytes : list N) : Prop :=
 
 Definition CodeOk (orig : N) (code : Z) (l' : lstate) : Prop :=
   code = MZ_OK \/ (code = MZ_STREAM_END /\ is_last (l_s l') = Done /\ is_avail (l_s l') = 0) \/
-  (code = MZ_ERR_BUF /\ orig = 0).
+  (code = MZ_ERR_BUF /\ orig = 0) \/ (code = MZ_ERR_DATA /\ fin = Adler32Mismatch).
 
 Lemma turn_ok flush orig l fut Dd :
   flush <> FL_FINISH ->
@@ -157,7 +159,7 @@ Proof.
                 l_tin := l_tin l + cr_in r; l_rout := rev_append bytes (l_rout l) |}).
   (* the wrapper invariant after the turn, whatever the status *)
   assert (HWI' : forall Dnew, DI' (cr_dec r) (skipn (N.to_nat (cr_in r)) (l_in l) ++ fut) (Dd ++ aget_list (cr_buf r) (is_ofs (l_s l)) (cr_out r)) ->
-            (cr_status r = NeedsMoreInput \/ cr_status r = HasMoreOutput \/ (cr_status r = Done /\ d_state (cr_dec r) = DoneForever)) ->
+            (cr_status r = NeedsMoreInput \/ cr_status r = HasMoreOutput \/ (cr_status r = fin /\ d_state (cr_dec r) = DoneForever)) ->
             Dnew = Dd ++ bytes -> WI s2 (l_in l' ++ fut) Dnew).
   { intros Dnew HD' Hst ->. unfold WI, pend, s2, l'. cbn [is_dec is_dict is_ofs is_avail is_flushed is_fmt is_last mk_is l_in l_s].
     split.
@@ -181,7 +183,7 @@ Proof.
       assert (Hemp : l_in l' = []).
       { unfold l'. cbn [l_in]. rewrite Hin, Nat2N.id. apply skipn_all. }
       destruct (orig =? 0) eqn:Eo.
-      * exists bytes. split; [exact (HTP _ HW' eq_refl)|]. right. right. split; [reflexivity|apply N.eqb_eq; exact Eo].
+      * exists bytes. split; [exact (HTP _ HW' eq_refl)|]. right. right. left. split; [reflexivity|apply N.eqb_eq; exact Eo].
       * replace (flush =? FL_FINISH) with false by (symmetry; apply N.eqb_neq; exact Hfl).
         rewrite Hemp. cbn [orb].
         exists bytes. split; [exact (HTP _ HW' eq_refl)|]. left. reflexivity.
@@ -199,14 +201,17 @@ Proof.
         intros X. assert (length bytes = 0%nat) by (rewrite X; reflexivity).
         unfold USIZE_MAX, DICT in *. lia.
   - (* the stream is finished *)
-    rewrite Hfin in Hs.
     assert (HW' := HWI' _ HD' (or_intror (or_intror (conj Hs Hdf))) eq_refl).
-    rewrite Hs. cbn [status_eqb status_code is_neg Z.eqb Z.ltb Z.compare Pos.compare Pos.compare_cont Pos.eqb andb orb negb].
-    replace (flush =? FL_FINISH) with false by (symmetry; apply N.eqb_neq; exact Hfl).
-    cbn [orb].
-    exists bytes. split; [exact (HTP _ HW' eq_refl)|].
-    destruct (cr_out r - n =? 0) eqn:Ea; [right; left|left; reflexivity].
-    split; [reflexivity|]. split; [unfold l', s2; cbn [l_s is_last mk_is]; exact Hs|unfold l', s2; cbn [l_s is_avail mk_is]; apply N.eqb_eq; exact Ea].
+    destruct fin_cases as [Hf|Hf]; rewrite Hf in Hs.
+    + rewrite Hs. cbn [status_eqb status_code is_neg Z.eqb Z.ltb Z.compare Pos.compare Pos.compare_cont Pos.eqb andb orb negb].
+      replace (flush =? FL_FINISH) with false by (symmetry; apply N.eqb_neq; exact Hfl).
+      cbn [orb].
+      exists bytes. split; [exact (HTP _ HW' eq_refl)|].
+      destruct (cr_out r - n =? 0) eqn:Ea; [right; left|left; reflexivity].
+      split; [reflexivity|]. split; [unfold l', s2; cbn [l_s is_last mk_is]; exact Hs|unfold l', s2; cbn [l_s is_avail mk_is]; apply N.eqb_eq; exact Ea].
+    + (* ... with the wrong checksum *)
+      rewrite Hs. cbn [status_eqb status_code is_neg Z.eqb Z.ltb Z.compare Pos.compare Pos.compare_cont Pos.eqb andb orb negb].
+      exists bytes. split; [exact (HTP _ HW' eq_refl)|]. right. right. right. split; [reflexivity|exact Hf].
 Qed.
 
 Lemma TurnPost_trans fut Dd l l1 l2 b1 b2 :
@@ -264,8 +269,9 @@ Definition CallOk (input fut Dd : list N) (out_len : N) (r : sresult) : Prop :=
   sr_in r <= N.of_nat (length input) /\ N.of_nat (length (sr_out r)) <= out_len /\
   WI (sr_state r) (skipn (N.to_nat (sr_in r)) input ++ fut) (Dd ++ sr_out r) /\
   (sr_code r = MZ_OK \/
-   (sr_code r = MZ_STREAM_END /\ Dd ++ sr_out r = PB) \/
-   (sr_code r = MZ_ERR_BUF /\ input = [])).
+   (sr_code r = MZ_STREAM_END /\ Dd ++ sr_out r = PB /\ fin = Done) \/
+   (sr_code r = MZ_ERR_BUF /\ input = []) \/
+   (sr_code r = MZ_ERR_DATA /\ fin = Adler32Mismatch)).
 
 Theorem inflate_call s input fut Dd out_len flush :
   flush <> FL_FINISH -> flush <> FL_FULL ->
@@ -279,10 +285,20 @@ Proof.
   replace (flush =? FL_FINISH) with false by (symmetry; apply N.eqb_neq; exact Hf1).
   rewrite Hfmt. fold (sflags0 fmt).
   cbn [set_first set_flushed is_last is_flushed is_avail is_ofs is_dict is_dec is_first is_fmt mk_is].
-  assert (Hl1 : status_eqb (is_last s) FailedCannotMakeProgress = false)
-    by (destruct Hlast as [->|[->|[-> _]]]; reflexivity).
-  assert (Hl2 : is_neg (is_last s) = false) by (destruct Hlast as [->|[->|[-> _]]]; reflexivity).
-  rewrite Hl1, Hl2, Hflu. cbn [andb orb negb].
+  assert (Hl1 : status_eqb (is_last s) FailedCannotMakeProgress = false).
+  { destruct Hlast as [->|[->|[-> _]]]; try reflexivity. destruct fin_cases as [->| ->]; reflexivity. }
+  rewrite Hl1.
+  destruct (is_neg (is_last s)) eqn:Hl2.
+  { (* a checksum mismatch was reported before: the error is sticky *)
+    assert (Hfm : fin = Adler32Mismatch).
+    { destruct Hlast as [X|[X|[X _]]]; [rewrite X in Hl2; discriminate Hl2|rewrite X in Hl2; discriminate Hl2|].
+      destruct fin_cases as [Y|Y]; [rewrite X, Y in Hl2; discriminate Hl2|exact Y]. }
+    unfold err. eexists. split; [reflexivity|]. unfold CallOk. cbn [sr_code sr_in sr_out sr_state].
+    change (N.to_nat 0) with 0%nat. cbn [skipn]. rewrite app_nil_r.
+    split; [lia|]. split; [cbn [length]; lia|]. split; [|right; right; right; split; [reflexivity|exact Hfm]].
+    unfold WI, pend. cbn [is_dec is_dict is_ofs is_avail is_flushed is_fmt is_last is_first mk_is].
+    split; [exact HD|]. split; [exact Hal|]. split; [exact Hoa|]. split; [exact Hofs|]. split; [exact Hflu|]. split; [exact Hfmt|exact Hlast]. }
+  rewrite Hflu. cbn [andb orb negb].
   fold (sfl fmt).
   set (s' := set_flushed (set_first s false) false).
   assert (HW' : WI s' (input ++ fut) Dd).
@@ -299,13 +315,15 @@ Proof.
     eexists. split; [reflexivity|]. unfold CallOk. cbn [sr_code sr_in sr_out sr_state].
     rewrite H6, rev_append_rev, app_nil_r, rev_append_rev, app_nil_r, rev_involutive, H3, N.add_0_l.
     split; [exact H1|]. split; [exact H4|]. split; [rewrite <- H2; exact H7|].
-    destruct Hc as [Hc|[(Hc & Hld & Ha0)|(Hc & Ho)]]; [left; exact Hc|right; left|right; right].
+    destruct Hc as [Hc|[(Hc & Hld & Ha0)|[(Hc & Ho)|(Hc & Hfm)]]]; [left; exact Hc|right; left|right; right; left|right; right; right].
     + split; [exact Hc|]. destruct H7 as (HD7 & _ & _ & _ & _ & _ & Hl7).
-      destruct Hl7 as [X|[X|[_ Hdf]]]; [rewrite X in Hld; discriminate|rewrite X in Hld; discriminate|].
+      destruct Hl7 as [X|[X|[Hlf Hdf]]]; [rewrite X in Hld; discriminate|rewrite X in Hld; discriminate|].
       destruct HD7 as ((_ & _ & HS7) & _). rewrite Hdf in HS7. unfold InflateStoredGen.ShR in HS7.
       destruct HS7 as (_ & _ & Hop & _). unfold pend in Hop. rewrite Ha0 in Hop.
-      change (aget_list (is_dict (l_s l')) (is_ofs (l_s l')) 0) with (@nil N) in Hop. rewrite app_nil_r in Hop. exact Hop.
+      change (aget_list (is_dict (l_s l')) (is_ofs (l_s l')) 0) with (@nil N) in Hop. rewrite app_nil_r in Hop.
+      split; [exact Hop|rewrite <- Hlf; exact Hld].
     + split; [exact Hc|]. destruct input; [reflexivity|cbn [length] in Ho; lia].
+    + split; assumption.
   - (* bytes pending in the ring: hand them out first *)
     apply N.eqb_neq in Eav.
     unfold guard. replace (is_ofs s + N.min (is_avail s) out_len <=? DICT) with true by (symmetry; apply N.leb_le; lia).
@@ -328,7 +346,10 @@ Proof.
     split; [exact HWn|].
     destruct (status_eqb (is_last s) Done && (is_avail s - n =? 0)) eqn:Ee; [right; left|left; reflexivity].
     split; [reflexivity|]. apply andb_prop in Ee. destruct Ee as [Ee1 Ee2]. apply N.eqb_eq in Ee2.
-    destruct Hlast as [X|[X|[_ Hdf]]]; [rewrite X in Ee1; discriminate|rewrite X in Ee1; discriminate|].
+    destruct Hlast as [X|[X|[Hlf Hdf]]]; [rewrite X in Ee1; discriminate|rewrite X in Ee1; discriminate|].
+    assert (Hfd : fin = Done).
+    { destruct fin_cases as [Y|Y]; [exact Y|]. rewrite Hlf, Y in Ee1. discriminate Ee1. }
+    split; [|exact Hfd].
     destruct HWn as (((_ & _ & HS7) & _) & _). cbn [is_dec mk_is] in HS7. rewrite Hdf in HS7. unfold InflateStoredGen.ShR in HS7.
     destruct HS7 as (_ & _ & Hop & _). unfold pend in Hop. cbn [is_dict is_ofs is_avail mk_is] in Hop. rewrite Ee2 in Hop.
     change (aget_list (is_dict s) (N.land (is_ofs s + n) (DICT - 1)) 0) with (@nil N) in Hop. rewrite app_nil_r in Hop. exact Hop.
@@ -349,18 +370,20 @@ Fixpoint sfeed (s : istream) (pending : list N) (calls : list (list N * N * N)) 
       end
   end.
 
-Definition code_ok (c : Z) : Prop := c = MZ_OK \/ c = MZ_STREAM_END \/ c = MZ_ERR_BUF.
+Definition code_ok (c : Z) : Prop := c = MZ_OK \/ c = MZ_STREAM_END \/ c = MZ_ERR_BUF \/ c = MZ_ERR_DATA.
 
 Theorem sfeed_ok : forall calls s pending later acc codes,
   Forall (fun it : list N * N * N => snd it <> FL_FINISH /\ snd it <> FL_FULL) calls ->
   WI s (pending ++ concat (map (fun it => fst (fst it)) calls) ++ later) acc ->
   N.of_nat (length (pending ++ concat (map (fun it => fst (fst it)) calls))) < 2 ^ 57 ->
-  Forall code_ok codes -> (In MZ_STREAM_END codes -> acc = PB) ->
+  Forall code_ok codes -> (In MZ_STREAM_END codes -> acc = PB /\ fin = Done) ->
+  (In MZ_ERR_DATA codes -> fin = Adler32Mismatch) ->
   exists codes' acc' s', sfeed s pending calls acc codes = Ret (codes', acc', s') /\
-    Forall code_ok codes' /\ acc' = firstn (length acc') PB /\ (In MZ_STREAM_END codes' -> acc' = PB).
+    Forall code_ok codes' /\ acc' = firstn (length acc') PB /\
+    (In MZ_STREAM_END codes' -> acc' = PB /\ fin = Done) /\ (In MZ_ERR_DATA codes' -> fin = Adler32Mismatch).
 Proof.
-  induction calls as [|[[piece out_len] flush] more IH]; intros s pending later acc codes Hfl HW Hshort Hck Hend.
-  - cbn [sfeed]. exists codes, acc, s. split; [reflexivity|]. split; [exact Hck|]. split; [|exact Hend].
+  induction calls as [|[[piece out_len] flush] more IH]; intros s pending later acc codes Hfl HW Hshort Hck Hend Hed.
+  - cbn [sfeed]. exists codes, acc, s. split; [reflexivity|]. split; [exact Hck|]. split; [|split; [exact Hend|exact Hed]].
     destruct (WI_prefix _ _ _ HW) as (X & HX). rewrite <- HX, firstn_app, Nat.sub_diag, firstn_all. cbn [firstn]. symmetry. apply app_nil_r.
   - cbn [sfeed]. cbn [map concat fst] in HW, Hshort.
     inversion Hfl as [|x xs [Hf1 Hf2] Hfl']; subst. cbn [snd] in Hf1, Hf2.
@@ -376,13 +399,18 @@ Proof.
     apply (IH (sr_state r) (skipn (N.to_nat (sr_in r)) (pending ++ piece)) later (acc ++ sr_out r) (codes ++ [sr_code r]) Hfl' HW').
     + rewrite !app_length in *. lia.
     + apply Forall_app. split; [exact Hck|]. constructor; [|constructor].
-      destruct Hcode as [X|[[X _]|[X _]]]; rewrite X; unfold code_ok; auto.
+      destruct Hcode as [X|[[X _]|[[X _]|[X _]]]]; rewrite X; unfold code_ok; auto.
     + intros Hi. apply in_app_or in Hi. destruct Hi as [Hi|Hi].
       * (* the stream had ended before: nothing more can have been handed out *)
-        specialize (Hend Hi). destruct (WI_prefix _ _ _ HW') as (X & HX). rewrite Hend in HX |- *.
+        destruct (Hend Hi) as [Hend1 Hend2]. split; [|exact Hend2].
+        destruct (WI_prefix _ _ _ HW') as (X & HX). rewrite Hend1 in HX |- *.
         assert (Hl : length ((PB ++ sr_out r) ++ X) = length PB) by (rewrite HX; reflexivity).
         rewrite !app_length in Hl. destruct (sr_out r); [apply app_nil_r|cbn [length] in Hl; lia].
-      * destruct Hi as [Hi|[]]. destruct Hcode as [X|[[_ X]|[X _]]]; [rewrite X in Hi; discriminate Hi|exact X|rewrite X in Hi; discriminate Hi].
+      * destruct Hi as [Hi|[]].
+        destruct Hcode as [X|[[_ X]|[[X _]|[X _]]]]; [rewrite X in Hi; discriminate Hi|exact X|rewrite X in Hi; discriminate Hi|rewrite X in Hi; discriminate Hi].
+    + intros Hi. apply in_app_or in Hi. destruct Hi as [Hi|Hi]; [exact (Hed Hi)|].
+      destruct Hi as [Hi|[]].
+      destruct Hcode as [X|[[X _]|[[X _]|[_ X]]]]; [rewrite X in Hi; discriminate Hi|rewrite X in Hi; discriminate Hi|rewrite X in Hi; discriminate Hi|exact X].
 Qed.
 
 End IS.
@@ -394,6 +422,56 @@ Proof.
   rewrite Nat2N.inj_pow. exact H.
 Qed.
 
+(* any trailer value A: with the wrong one (and a format that checks it) the stream is never reported finished -
+   MZ_DATA_ERROR instead, and it sticks *)
+Theorem inflate_on_stored_streams_any_trailer fmt cmf flg A chunks last extra calls later :
+  cmf < 256 -> flg < 256 -> valid_header (Z.of_N cmf) (Z.of_N flg) = true -> A < 2 ^ 32 ->
+  chunks_ok chunks -> bytes_ok last -> N.of_nat (length last) <= 65535 ->
+  let data := concat chunks ++ last in
+  let zl := zl_of fmt in
+  let stream := (if zl then [cmf; flg] else []) ++ stored_stream chunks last ++ (if zl then be32 A else []) in
+  let offered := concat (map (fun it : list N * N * N => fst (fst it)) calls) in
+  Forall (fun it : list N * N * N => snd it <> FL_FINISH /\ snd it <> FL_FULL) calls ->
+  offered ++ later = stream ++ extra ->
+  N.of_nat (length offered) < 2 ^ 57 -> N.of_nat (length data) < 2 ^ 40 ->
+  exists codes acc s',
+    sfeed (is_new fmt) [] calls [] [] = Ret (codes, acc, s') /\
+    Forall code_ok codes /\ acc = firstn (length acc) data /\
+    (In MZ_STREAM_END codes -> acc = data /\ (fmt = FZlib -> adler32 1 data = A)) /\
+    (In MZ_ERR_DATA codes -> fmt = FZlib /\ adler32 1 data <> A).
+Proof.
+  intros Hcmf Hflg Hvalid HA Hc Hl1 Hl2 data zl stream offered Hfl Hcat Hshort Hlen.
+  set (B := map (pair false) chunks ++ [(true, last)]).
+  pose proof (shapeB_of chunks last Hc Hl1 Hl2) as HB. fold B in HB.
+  assert (Hinput : stream ++ extra = InflateStoredZ.hz zl cmf flg ++ InflateStoredZ.encT zl A extra B).
+  { unfold stream, InflateStoredZ.hz, InflateStoredZ.encT, tail, tailz, B. rewrite enc_of.
+    destruct zl; cbn [app]; rewrite <- ?app_assoc; reflexivity. }
+  assert (Hdata : data = InflateStoredChunks.P B) by (unfold data, InflateStoredChunks.P, B; rewrite pay_of; reflexivity).
+  assert (HW : WI fmt cmf flg A B extra (is_new fmt) ([] ++ offered ++ later) []).
+  { unfold WI, pend, is_new. cbn [is_dec is_dict is_ofs is_avail is_flushed is_fmt is_last app].
+    change (aget_list (amake DICT 0) 0 0) with (@nil N).
+    split; [rewrite Hcat, Hinput; apply InflateStoredGen.DI_init; exact HB|].
+    split; [reflexivity|]. split; [unfold DICT; lia|]. split; [unfold DICT; lia|]. split; [reflexivity|]. split; [reflexivity|].
+    left. reflexivity. }
+  destruct (sfeed_ok fmt cmf flg A Hcmf Hflg Hvalid HA B HB extra
+              ltac:(rewrite <- Hdata; apply pow40_nat; exact Hlen)
+              calls (is_new fmt) [] later [] [] Hfl HW Hshort ltac:(constructor) ltac:(intros []) ltac:(intros []))
+    as (codes & acc & s' & Hs & H1 & H2 & H3 & H4).
+  exists codes, acc, s'. rewrite <- Hdata in H2, H3. split; [exact Hs|]. split; [exact H1|]. split; [exact H2|].
+  assert (Hf : final_status (sfl fmt) zl A B = (if match fmt with FZlib => (adler32 1 data =? A) | _ => true end then Done else Adler32Mismatch)).
+  { unfold final_status. rewrite <- Hdata. unfold zl. destruct fmt; cbn [zl_of negb].
+    - change (has (sfl FZlib) F_IGNORE) with false. reflexivity.
+    - change (has (sfl FZlibIgnore) F_IGNORE) with true. reflexivity.
+    - rewrite orb_true_r. reflexivity. }
+  fold zl in H3, H4. rewrite Hf in H3, H4.
+  split.
+  - intros Hi. destruct (H3 Hi) as [H31 H32]. split; [exact H31|]. intros E. rewrite E in H32.
+    destruct (adler32 1 data =? A) eqn:E'; [apply N.eqb_eq; exact E'|discriminate H32].
+  - intros Hi. specialize (H4 Hi). destruct fmt; try discriminate H4.
+    split; [reflexivity|]. destruct (adler32 1 data =? A) eqn:E; [discriminate H4|apply N.eqb_neq; exact E].
+Qed.
+
+(* the right trailer (or none): never a data error *)
 Theorem inflate_on_stored_streams fmt cmf flg chunks last extra calls later :
   cmf < 256 -> flg < 256 -> valid_header (Z.of_N cmf) (Z.of_N flg) = true ->
   chunks_ok chunks -> bytes_ok last -> N.of_nat (length last) <= 65535 ->
@@ -406,28 +484,15 @@ Theorem inflate_on_stored_streams fmt cmf flg chunks last extra calls later :
   N.of_nat (length offered) < 2 ^ 57 -> N.of_nat (length data) < 2 ^ 40 ->
   exists codes acc s',
     sfeed (is_new fmt) [] calls [] [] = Ret (codes, acc, s') /\
-    Forall code_ok codes /\ acc = firstn (length acc) data /\ (In MZ_STREAM_END codes -> acc = data).
+    Forall (fun c => c = MZ_OK \/ c = MZ_STREAM_END \/ c = MZ_ERR_BUF) codes /\
+    acc = firstn (length acc) data /\ (In MZ_STREAM_END codes -> acc = data).
 Proof.
   intros Hcmf Hflg Hvalid Hc Hl1 Hl2 data zl stream offered Hfl Hcat Hshort Hlen.
-  set (B := map (pair false) chunks ++ [(true, last)]).
-  pose proof (shapeB_of chunks last Hc Hl1 Hl2) as HB. fold B in HB.
-  set (A := adler32 1 data).
-  assert (Hinput : stream ++ extra = InflateStoredZ.hz zl cmf flg ++ InflateStoredZ.encT zl A extra B).
-  { unfold stream, InflateStoredZ.hz, InflateStoredZ.encT, tail, tailz, B. rewrite enc_of. fold A.
-    destruct zl; cbn [app]; rewrite <- ?app_assoc; reflexivity. }
-  assert (Hdata : data = InflateStoredChunks.P B) by (unfold data, InflateStoredChunks.P, B; rewrite pay_of; reflexivity).
-  assert (Hfin : final_status (sfl fmt) zl A B = Done).
-  { unfold final_status. rewrite <- Hdata. unfold A. rewrite N.eqb_refl, !orb_true_r. reflexivity. }
-  assert (HW : WI fmt cmf flg A B extra (is_new fmt) ([] ++ offered ++ later) []).
-  { unfold WI, pend, is_new. cbn [is_dec is_dict is_ofs is_avail is_flushed is_fmt is_last app].
-    change (aget_list (amake DICT 0) 0 0) with (@nil N).
-    split; [rewrite Hcat, Hinput; apply InflateStoredGen.DI_init; exact HB|].
-    split; [reflexivity|]. split; [unfold DICT; lia|]. split; [unfold DICT; lia|]. split; [reflexivity|]. split; [reflexivity|].
-    left. reflexivity. }
-  destruct (sfeed_ok fmt cmf flg A Hcmf Hflg Hvalid (adler32_lt _ _ adler_valid_1) B HB extra Hfin
-              ltac:(rewrite <- Hdata; apply pow40_nat; exact Hlen)
-              calls (is_new fmt) [] later [] [] Hfl HW Hshort ltac:(constructor) ltac:(intros [])) as (codes & acc & s' & Hs & H1 & H2 & H3).
-  exists codes, acc, s'. rewrite <- Hdata in H2, H3. split; [exact Hs|]. split; [exact H1|]. split; assumption.
+  destruct (inflate_on_stored_streams_any_trailer fmt cmf flg (adler32 1 data) chunks last extra calls later Hcmf Hflg Hvalid
+              (adler32_lt _ _ adler_valid_1) Hc Hl1 Hl2 Hfl Hcat Hshort Hlen) as (codes & acc & s' & Hs & H1 & H2 & H3 & H4).
+  exists codes, acc, s'. split; [exact Hs|]. split; [|split; [exact H2|intros Hi; exact (proj1 (H3 Hi))]].
+  rewrite Forall_forall in *. intros c Hc'. destruct (H1 c Hc') as [X|[X|[X|X]]]; auto.
+  exfalso. rewrite X in Hc'. destruct (H4 Hc') as [_ Hne]. apply Hne. reflexivity.
 Qed.
 
 (* ------------------------------------------------------------------ the one-call use: Finish on a fresh object *)
